@@ -10,7 +10,7 @@ import sys
 from vf import common, findings
 from vf.props import deductive
 
-KEYS = ["doctrans.parser_utils:ir_merge", "doctrans.parse:function", "doctrans.parse:class_", "doctrans.parser_utils:_interpolate_return", "doctrans.parser_utils:_join_non_none", "doctrans.ast_utils:get_function_type"]
+KEYS = ["doctrans.parser_utils:ir_merge", "vf.contracts.laws:function_signature_roundtrip", "doctrans.parse:function", "doctrans.parse:class_", "doctrans.parser_utils:_interpolate_return", "doctrans.parser_utils:_join_non_none", "doctrans.ast_utils:get_function_type"]
 NAMES = ("a", "b", "c", "d")
 
 
